@@ -167,12 +167,25 @@ def gen_file(rng, kind):
     tps = rng.choice(TPS)
     npipes = rng.choice([0, 1, 1, 2, 3, 5, 8, 12, 20])
     rows, classes = [], []
+    prev = None
     shared = arrival_text(rng, tps)
     for p in range(npipes):
         n = rng.choice([1, 1, 2, 3, 5])
         for j in range(n):
             if j == 0:
                 text, c = shared if rng.random() < 0.25 else arrival_text(rng, tps)
+                if prev is not None and rng.random() < 0.3:
+                    # an arrival within a tick of the previous pipeline's: same tick window, another boundary
+                    # (each arrival snaps to ITS OWN boundary, whatever was worked out for its neighbours)
+                    k = math.floor(prev * tps)
+                    cand = [(k + 1) / tps, k / tps, (k - 1) / tps if k > 0 else 0.0, math.nextafter(prev, 0.0),
+                            math.nextafter((k + 1) / tps, 0.0), prev + 0.4 / tps, max(0.0, prev - 0.6 / tps),
+                            (k + 1) * (1.0 / tps), k * (1.0 / tps)]
+                    text, c = repr(rng.choice(cand)), 'neighbour'
+                try:
+                    prev = float(text)
+                except ValueError:
+                    prev = None
                 if rng.random() < 0.2:
                     shared = (text, c)
             elif kind == 'snap' and rng.random() < 0.1:
